@@ -235,6 +235,9 @@ class Check(CheckBase):
             os.makedirs(os.path.dirname(tp), exist_ok=True)
             with open(tp, 'wb') as f:
                 f.write(old)
+            if mode == 'samelen' and pr.random() < 0.5:
+                # a damaged earlier copy that kept its timestamp (cp -p, touch -r): same size, same mtime, other bytes
+                os.utime(tp, ns=(1, expected[p][1]))
         if pre in ('elsewhere', 'mixed'):
             up = os.path.join(target, 'unrelated', 'keep-me')
             os.makedirs(os.path.dirname(up))
